@@ -360,7 +360,10 @@ def _one_benign(path, props_all):
             res["verdict"] = "breaks-existing-tests"
             return res
         res["checks"] = {}
+        only_props = [q for q in os.environ.get("BENIGN_PROPS", "").split(",") if q]
         for prop in props_all:
+            if only_props and prop not in only_props:
+                continue
             code, out = run_check(prop, root, njobs=int(os.environ.get("SEEDED_JOBS", "8")))
             sigs = [ln for ln in out.splitlines() if ln.startswith("violation:") or ln.startswith("HARNESS-ERROR")]
             res["checks"][prop] = {"exit": code, "lines": [x[:400] for x in sigs[:4]]}
